@@ -232,6 +232,41 @@ pub fn run(fields: &[&str]) -> String {
             tb.end();
             dump_dom(&tb.sink)
         },
+        // the sink-call trace of the real XmlTreeBuilder fed these tokens (TracingSink<RcDom>: every TreeSink call with
+        // numbered handles, contract violations), and after every token the handles `trace_handles` reports
+        ["trace", toks] => {
+            use crate::sinkops::{IdTracer, TracingSink};
+            let Some(toks) = parse_tokens(toks) else {
+                return "bad-case".into();
+            };
+            let sink: TracingSink<RcDom> = TracingSink::new(RcDom::default(), true);
+            let tb = XmlTreeBuilder::new(sink, XmlTreeBuilderOpts::default());
+            let mut held: Vec<String> = vec![];
+            for t in toks {
+                let _ = tb.process_token(t);
+                let tr: IdTracer<Handle> = IdTracer::default();
+                tb.trace_handles(&tr);
+                let ids: Vec<String> = tr.ids.borrow().iter().map(|i| i.to_string()).collect();
+                held.push(if ids.is_empty() { "-".to_string() } else { ids.join(",") });
+            }
+            tb.end();
+            let trace = tb.sink.trace.borrow();
+            let viol = tb.sink.violations.borrow();
+            let v = if viol.is_empty() {
+                "-".to_string()
+            } else {
+                viol.iter()
+                    .map(|(i, w)| format!("{}:CONTRACT-VIOLATION {}", i, w))
+                    .collect::<Vec<_>>()
+                    .join("|")
+            };
+            format!(
+                "{}@V={}@H={}",
+                if trace.is_empty() { "-".to_string() } else { trace.join(";") },
+                v,
+                if held.is_empty() { "-".to_string() } else { held.join("/") }
+            )
+        },
         ["src", chunks, _raw] => match parse_chunks(chunks) {
             Some(dom) => dump_dom(&dom),
             None => "bad-case".into(),
